@@ -1165,7 +1165,7 @@ mod verif_xc_permissions {
             let real = doc.find_grant(&subject, &Utc.timestamp_opt(now, 0).unwrap()).is_some();
             assert!(
               real == want,
-              "XC-WITNESS label=c18.validity not_before={:?} (= {} s since epoch) not_after={:?} (= {} s) now={} s ({} UTC): find_grant says the grant is {} but it is {} (valid iff not_before <= now < not_after as instants, UTC offset applied)",
+              "XC-WITNESS label=c18.validity not_before={:?} (= {} s since epoch) not_after={:?} (= {} s) now={} s ({}): find_grant says the grant is {} but it is {} (valid iff not_before <= now < not_after as instants, UTC offset applied)",
               nb_text, nb, na_text, na, now, time_string(now, "Z"),
               if real { "valid" } else { "not valid" }, if want { "valid" } else { "not valid" }
             );
@@ -1212,7 +1212,7 @@ mod verif_xc_permissions {
           let real = matches!(r, Ok(true));
           assert!(
             real == want,
-            "XC-WITNESS label=c18.validity.plugin not_before={:?} not_after={:?} real clock={} UTC topic=\"T\" (write-protected, grant allows publish): check_create_datawriter returned {:?} but the grant is {} at this instant",
+            "XC-WITNESS label=c18.validity.plugin not_before={:?} not_after={:?} real clock={} topic=\"T\" (write-protected, grant allows publish): check_create_datawriter returned {:?} but the grant is {} at this instant",
             nb_text, na_text, time_string(now, "Z"), r.map_err(|e| format!("{:?}", e)), if want { "valid => allowed" } else { "not valid => refused" }
           );
           if want { n_valid += 1 } else { n_invalid += 1 }
